@@ -120,6 +120,7 @@ type Unit struct {
 	fnVals   map[string]*ssa.Function // term -> function
 	closures map[string]Val
 	curFrame *Frame
+	callFrame *Frame // frame of the call being executed (lock lookups through pointer fields)
 	mode     string // "verify"
 	topProps []string
 	wantSafety bool
@@ -132,6 +133,7 @@ type Unit struct {
 	topRets []retRec
 	nextOverride string
 	wantCallCovers bool
+	curCallArgs []ssa.Value
 	selfRef string // identity of the function value when a closure is verified standalone
 	modsDone bool
 	oblNames map[string]int
